@@ -82,6 +82,7 @@ def run_closed(ctx, case):
             ctx.label('integer dtype basis state')
         ctx.label('boundary state' if rank < D else 'full rank')
         tag = f'{c["fam"]} dims={dims}'
+        rho_before = rho.copy()
         ctx.require(E.is_ppt(rho, dimt) is True or E.is_ppt(rho, dimt) == True, 'is_ppt accepts a separable state', tag)  # noqa: E712
         ctx.require(bool(E.is_generalized_ppt(rho, dimt)), 'is_generalized_ppt accepts a separable state', tag)
         tg, info = E.is_generalized_ppt(rho, dimt, return_info=True)
@@ -104,6 +105,7 @@ def run_closed(ctx, case):
             ctx.require(math.isfinite(ee) and abs(ee) <= 1e-10, 'entanglement of formation is finite and zero on a separable state', f'{ee}')
             ctx.require(math.isfinite(gg) and abs(gg) <= 1e-12, 'geometric measure is finite and zero on a separable state', f'{gg}')
             ctx.label('two-qubit')
+        ctx.close(rho, rho_before, 0, 'criteria do not modify the state they are given')
         ctx.tick()
 
 
